@@ -375,11 +375,11 @@ func (d *Dynamic) insertChildren(ctx vxfw.DrawContext, p *vxfw.Surface, ah int) 
 	// We reached the top widget but are below row 0. Reset the
 	if d.scroll.top == 0 && ah > 0 {
 		d.scroll.offset = 0
-		var row uint16
+		var row int
 		for i, ch := range p.Children {
-			ch.Origin.Row = int(row)
+			ch.Origin.Row = row
 			p.Children[i] = ch
-			row += ch.Surface.Size.Height + uint16(d.Gap)
+			row += int(ch.Surface.Size.Height) + d.Gap
 		}
 		return nil
 	}
